@@ -14,13 +14,24 @@
        the leaves' concatenation;
      all views are derived from the one segment list; primitive values; DER
      re-encoding = primitive TLV of the content.
-   PARTIAL: the converse for BER (every such string IS accepted) and the CER
-   shape rule (primitive segments of 1000 octets, only the last shorter) are
-   decided by c16.decode (all 156 CER shapes enumerated) and not proved.
+     C16_constructed_ber_accepted_definite / _indefinite - the converse: in
+       BER every grammar string of values that are all OCTET STRINGs IS
+       accepted as the content of a constructed octet string (definite or
+       indefinite), and the value holds exactly that content (plus, in the
+       indefinite form, the end-of-contents: D17);
+     C16_constructed_cer_accepted / C16_constructed_cer_shape - in CER the
+       segment loop accepts EXACTLY the sequences of primitive OCTET STRING
+       segments with minimal length octets in which every segment has at most
+       1000 octets and none follows a shorter one, and captures exactly them;
+     C16_primitive_accepted - the primitive form is accepted exactly when it
+       is not a CER primitive of more than 1000 octets.
+   PARTIAL: the use of the value as a decoding source (OctetStringSource) is
+   decided by the streams (c16.decode source view, c07 kinds 6 and 7, every
+   program case of C02-C04/C09-C11) and not modelled.
    BER re-encoding of values whose outermost form was indefinite is the known
    finding D17 (C16_ber_reencode_indefinite_refuted, KNOWN-FINDING). *)
 Require Import BV.Model.Base BV.Model.SrcB BV.Model.Length BV.Model.Tag BV.Model.Content BV.Model.OctStr.
-Require Import BV.Proofs.ContentP BV.Proofs.GrammarP BV.Proofs.SkipP BV.Proofs.OctStrP BV.Proofs.OctGrammarP.
+Require Import BV.Proofs.ContentP BV.Proofs.GrammarP BV.Proofs.SkipP BV.Proofs.OctStrP BV.Proofs.OctGrammarP BV.Proofs.OctComplP BV.Proofs.OctCerP BV.Proofs.IntP BV.Proofs.SrcBP.
 
 Theorem C16_segments_are_leaves : forall m ts ds,
   encs m ts ds -> accepts octet_filter (traces ts 0) = true -> octets_ok ds = true ->
@@ -40,6 +51,46 @@ Theorem C16_constructed_ber : forall fuel c s o c' s',
       end.
 Proof. exact constructed_ber_is_segments. Qed.
 
+
+(* the converse in BER *)
+Theorem C16_constructed_ber_accepted_definite : forall m ts ds fuel c rest,
+  encs m ts ds -> accepts octet_filter (traces ts 0) = true ->
+  cmd c = m -> cst c = Definite -> (2 * length ds + length ts < fuel)%nat -> octets_ok (ds ++ rest) = true ->
+  take_constructed_ber fuel c (mkSrc (ds ++ rest) (Some (len ds)) None)
+  = (Ok (OCons ds, c), mkSrc rest (Some 0) None).
+Proof. exact constructed_ber_complete_def. Qed.
+
+Theorem C16_constructed_ber_accepted_indefinite : forall m ts ds fuel c lw0 rest l,
+  encs m ts ds -> accepts octet_filter (traces ts 0) = true ->
+  cmd c = m -> cst c = Indefinite -> (2 * length ds + length ts < fuel)%nat ->
+  lenoct m 0 lw0 -> octets_ok (ds ++ 0 :: lw0 ++ rest) = true -> lim_ge l (len ds + (1 + len lw0)) ->
+  take_constructed_ber fuel c (mkSrc (ds ++ 0 :: lw0 ++ rest) l None)
+  = (Ok (OCons (ds ++ 0 :: lw0), with_state c Done), mkSrc rest (lim_sub l (len ds + (1 + len lw0))) None).
+Proof. exact constructed_ber_complete_indef. Qed.
+
+(* the CER shape rule, both directions *)
+Theorem C16_constructed_cer_accepted : forall segs ds fuel c rest l,
+  cer_segs segs ds -> cer_shape false segs = true -> cmd c = Cer -> cst c = Indefinite ->
+  (length segs < fuel)%nat -> octets_ok (ds ++ 0 :: 0 :: rest) = true -> lim_ge l (len ds + 2) ->
+  take_constructed_cer fuel c (mkSrc (ds ++ 0 :: 0 :: rest) l None)
+  = (Ok (OCons ds, c), mkSrc (0 :: 0 :: rest) (lim_sub l (len ds)) None).
+Proof. exact constructed_cer_complete. Qed.
+
+Theorem C16_constructed_cer_shape : forall fuel c s o c' s',
+  nf s -> octets_ok (rem s) = true -> cmd c = Cer ->
+  take_constructed_cer fuel c s = (Ok (o, c'), s') ->
+  exists segs ds, o = OCons ds /\ cer_segs segs ds /\ cer_shape false segs = true /\ rem s = ds ++ rem s'.
+Proof. exact constructed_cer_sound. Qed.
+
+Theorem C16_primitive_accepted : forall fuel t m c,
+  octstr_from_content fuel t (CPrim m) (full c)
+  = if mode_eqb m Cer && (1000 <? len c) then (CErr, full c) else (Ok (OPrim c, CPrim m), done_src).
+Proof. exact octstr_primitive_accepted. Qed.
+
+Example C16_cer_shape_ex :
+  cer_shape false [repeat 7 1000; [1; 2]] = true /\ cer_shape false [[1; 2]; [3]] = false /\
+  cer_shape false [repeat 7 1001] = false.
+Proof. exact cer_shape_example. Qed.
 
 Theorem C16_views_consistent_partial : forall o segs, os_segments o = Ok segs ->
   os_octets o = Ok (concat segs) /\ os_len o = Ok (len (concat segs)) /\
@@ -74,6 +125,11 @@ Proof. vm_compute. reflexivity. Qed.
 
 Print Assumptions C16_segments_are_leaves.
 Print Assumptions C16_constructed_ber.
+Print Assumptions C16_constructed_ber_accepted_definite.
+Print Assumptions C16_constructed_ber_accepted_indefinite.
+Print Assumptions C16_constructed_cer_accepted.
+Print Assumptions C16_constructed_cer_shape.
+Print Assumptions C16_primitive_accepted.
 Print Assumptions C16_views_consistent_partial.
 Print Assumptions C16_primitive_views.
 Print Assumptions C16_der_reencoding.
